@@ -1082,6 +1082,19 @@ func (w *Worker) ensureInit(pkg *ssa.Package) {
 			}
 			// library package: keep whatever was initialised so far
 		}
+		if pkg.Pkg.Path() == "net" {
+			// net's initialiser is not interpretable as a whole; the one global the code under test
+			// compares against (net.ErrClosed = poll.ErrNetClosing) is set by hand
+			if g, ok := pkg.Members["ErrClosed"].(*ssa.Global); ok {
+				if iv, isI := (*w.globals[g]).(IfaceV); isI && iv.t == nil {
+					if pp := w.P.pkgs["internal/poll"]; pp != nil {
+						if tn, ok := pp.Members["errNetClosing"].(*ssa.Type); ok {
+							*w.globals[g] = IfaceV{t: tn.Type(), v: w.zero(tn.Type())}
+						}
+					}
+				}
+			}
+		}
 	}()
 	w.call(&FuncV{fn: init}, nil, nil)
 }
